@@ -239,8 +239,9 @@ func (gb GenBank) String() string {
 	source = AddPrefix(source, indent)
 	b.WriteString("SOURCE      " + source + "\n")
 
-	organism := wrap.Space(gb.Fields.Source.Name, 67)
-	organism = AddPrefix(organism, indent)
+	// The organism name is written on one line: the reader takes the first
+	// line as the name and everything below it as the taxonomy.
+	organism := AddPrefix(gb.Fields.Source.Name, indent)
 	b.WriteString("  ORGANISM  " + organism + "\n")
 
 	taxon := wrap.Space(strings.Join(gb.Fields.Source.Taxon, "; ")+".", 67)
